@@ -67,7 +67,7 @@ def gen_word_line(rng, words, reserved):
         else:
             toks.append(rng.choice(VOCAB))
     lead = rng.choice(["", " ", "  ", "\t", "    "])
-    sep = lambda: rng.choice([" ", " ", " ", "  ", "\t"])  # noqa
+    sep = lambda: rng.choice([" ", " ", " ", "  ", "\t", " ", "\x0c", "\x0b", "\x1c", "\x1f", "\x85", "\xa0", "\u2028", "\u3000", " \x1d "])  # noqa
     line = lead + toks[0]
     for t in toks[1:]:
         line += sep() + t
@@ -393,7 +393,7 @@ def digit_runs(s):
 def as_scope(res, pid, rng, tier):
     sess, fails = Sess(), []
     plans = []
-    rounds = 16 if tier == "thorough" else 8
+    rounds = 2 * len(AS_LISTS) if tier == "thorough" else len(AS_LISTS)
     edge = []
     for n, (lo, hi) in (("64512", (64512, 65536)), ("65535", (64512, 65536)), ("64511", (0, 64512))):
         for want in (0, hi - lo - 1):
@@ -404,12 +404,13 @@ def as_scope(res, pid, rng, tier):
     edge.append(("s", list(reversed(big))))
     for r in range(rounds + len(edge)):
         if r < rounds:
-            nums = AS_LISTS[(r // 2 + res.seed) % len(AS_LISTS)]
+            nums = AS_LISTS[(r + res.seed) % len(AS_LISTS)]            # every list in every run
             salt = SALTS[(5 * r + res.seed) % len(SALTS)]          # every list meets two different salts in this process
         else:
             salt, nums = edge[r - rounds]
         undo = r < rounds and r % 4 == 1        # AS numbers are replaced in an --undo run as well
-        cfg = fa.FaCfg(salt=salt, asn=nums, undo=undo)
+        # (a listed number that is also a reserved word - built in like `1`, or the user's - is an AS number all the same)
+        cfg = fa.FaCfg(salt=salt, asn=nums, undo=undo, reserved=([nums[0], "12"] if r % 3 == 2 else None))
         t = fa.FaTwin(sess, cfg)
         if t.obj is None:
             continue
@@ -526,7 +527,17 @@ def as_scope(res, pid, rng, tier):
 
 def rand_feature_cfg(rng, subset=None):
     pwd, ip, words, asn = subset if subset is not None else [rng.random() < 0.5 for _ in range(4)]
-    return fa.FaCfg(salt=rng.choice(SALTS), pwd=pwd, ip=ip, b4=rng.choice([None, 0, 8, 8, 16]), b6=rng.choice([None, 0, 8, 16]),
+    c = _rand_feature_cfg(rng, pwd, ip, words, asn)
+    if c.words and rng.random() < 0.6:
+        # user reserved words in mixed case that contain a listed word, and one that is a listed AS number
+        c.reserved = [c.words[0].capitalize() + "Net", "core-" + c.words[-1].upper(), "relax"] + ([c.asn[0]] if c.asn and rng.random() < 0.5 else [])
+    elif c.asn and rng.random() < 0.4:
+        c.reserved = [c.asn[-1], "Seattle"]
+    return c
+
+
+def _rand_feature_cfg(rng, pwd, ip, words, asn):
+    return fa.FaCfg(salt=rng.choice(SALTS), pwd=pwd, ip=ip, b4=rng.choice([None, 0, 8, 8, 16, 32]), b6=rng.choice([None, 0, 8, 16, 32, 64, 128]),
                     words=rng.choice(WORDLISTS) if words else None, asn=rng.choice(AS_LISTS) if asn else None,
                     nets=rng.choice([None, None, ["10.1.0.0/16"]]) if ip else None,
                     reserved=rng.choice([None, None, ["Seattle", "relax"]]))
@@ -546,8 +557,10 @@ def mixed_text(rng, cfg, n):
         elif k < 0.55:
             out.append(" ipv6 address %s/64\n" % __import__("ipaddress").IPv6Address(rng.getrandbits(128)))
         elif k < 0.75:
-            out.append(gen_word_line(rng, words, []))
+            # user reserved words (any letter case) that contain a listed word: kept as whole tokens, whatever other features are on
+            out.append(gen_word_line(rng, words, [w_ for w_ in (cfg.reserved or []) if any(x.lower() in w_.lower() for x in words)]))
         elif k < 0.9:
+            # (a listed number that is also a reserved word - `1`, `2`, a user reserved number - is still an AS number)
             out.append(gen_as_line(rng, nums))
         else:
             out.append(rng.choice(["\n", "   \n", "!\n", "\t\n", "end"]))
@@ -640,9 +653,16 @@ def structure_scope(res, pid, rng, tier):
         odd = ['"\n', '""\n', "'\n", '" "\n', "  ''  \n", "}\n", "];\n", '\\"\n']
         wl = (cfg.words or ["sea"])[0]
         rep = ["hostname %s-core\n" % wl, "hostname %s-core  \n" % wl, "hostname %s-core\t\n" % wl, "hostname %s-core \r\n" % wl, "hostname %s-core\n" % wl]
+        # a (user) reserved word that contains a listed word is not a sensitive item: carried over as written, in any letter case
+        resv = []
+        if cfg.words is not None and not cfg.pwd and not cfg.asn:
+            for rw in (cfg.reserved or []):
+                if any(x.lower() in rw.lower() for x in cfg.words) and len(rw.split()) == 1:
+                    for form_ in (rw, rw.upper(), rw.lower()):
+                        resv.append("hostname %s uplink\n" % form_)
         # a sensitive word on a line with tokens that contain compatibility characters: those tokens are not sensitive items
         compat = ["description %s link %s uplink\n" % (ct, wl) for ct in COMPAT_TOKENS if len(ct.split()) == 1]   # (NBSP is white space)
-        lines = lines[:-1] + odd + rep + compat + [lines[-1]]
+        lines = lines[:-1] + odd + rep + compat + resv + [lines[-1]]
         plain += odd
         text = "".join(lines)
         try:
@@ -673,6 +693,8 @@ def structure_scope(res, pid, rng, tier):
                 fails.append({"kind": "leading or trailing white space of a line changed", "cfg": cfg.describe(), "line": a, "output": b})
             if not ca and a != b:
                 fails.append({"kind": "a blank line changed", "cfg": cfg.describe(), "line": a, "output": b})
+            if (a + "\n") in resv and a.split() != b.split():
+                fails.append({"kind": "a token that is a (user) reserved word - not a sensitive item - changed", "cfg": cfg.describe(), "line": a, "output": b})
             if (a + "\n") in compat and not cfg.pwd and not cfg.asn:
                 ta, tb = a.split(" "), b.split(" ")
                 if len(ta) != len(tb) or ta[:3] + ta[4:] != tb[:3] + tb[4:]:
@@ -818,6 +840,19 @@ def total_scope(res, pid, rng, tier):
             continue
         if o.getvalue().count("\n") != 1 and "\n" not in ln:
             fails.append({"kind": "one line in did not give one line out", "cfg": c.describe(), "line": ln, "output": o.getvalue()})
+    # inputs without a single line, or with blank lines only
+    for c_ in cfgs[:6]:
+        for txt in ("", "\n", "\n\n\n", " ", "\r\n", "\x0c"):
+            o = io.StringIO()
+            res.evaluations += 1
+            try:
+                c_.build().anonymize_io(io.StringIO(txt), o)
+            except Exception as e:  # noqa
+                fails.append({"kind": "processing an input of %d characters without text raised %s" % (len(txt), type(e).__name__), "cfg": c_.describe(),
+                              "input": txt, "exc": repr(e)[:200]})
+                continue
+            if o.getvalue().count("\n") != txt.count("\n"):
+                fails.append({"kind": "number of lines changed on an input without text", "cfg": c_.describe(), "input": txt, "output": o.getvalue()})
     # every salt string is a salt: characters after the first one that are outside the `$9$` alphabet, white space, controls, long salts
     from .jun_checks import ref_encrypt
     for hs in ["s@lt", "Q 1", "7_x", "a*", "i\n", "-%", "n\x00", "K€", "e\\", "9$", "Z\t", ". ", "/" * 70, "_", "\x7f", "ß", "\u2028"]:
@@ -1023,6 +1058,8 @@ def determinism_scope(res, pid, rng, tier):
     for r in range(12 if tier == "thorough" else 5):
         cfg = rand_feature_cfg(rng, [True, True, True, True])
         text = "".join(mixed_text(rng, cfg, 40)) + "username noc secret sha512 %s\n" % L.gen_secret(rng, "sha512")
+        text += "username admin secret 5 $1$abcdefghijkl$0rN7R8PKwC30AsCGA77vy.\nenable secret 5 $1$%s$%s\n" % (
+            "".join(rng.choice(L.B64) for _ in range(rng.randint(9, 16))), "".join(rng.choice(L.B64) for _ in range(22)))
         a = anon_text(cfg, text)
         # unrelated anonymizers in between
         fa.FaCfg(salt="zz", pwd=True, ip=True, words=["router", "ip"], reserved=[w.upper() for w in (cfg.words or [])] + ["sea", "password"],
